@@ -298,7 +298,13 @@ pub(crate) fn run_scheduling_solver(
                             &w.resources,
                             sn_assignment.assigned_tasks.iter().map(|task_id| {
                                 let t = task_map.get_task(*task_id);
-                                (t.resource_rq_id, t.rv_id().unwrap())
+                                // A reservation may also belong to a task that is being
+                                // redirected to this worker
+                                let rv_id = t
+                                    .rv_id()
+                                    .or_else(|| scheduler_cache.redirects.get(task_id).map(|r| r.1))
+                                    .unwrap();
+                                (t.resource_rq_id, rv_id)
                             }),
                             request_map,
                         );
